@@ -140,6 +140,12 @@ def step(segs, i, ctx, tl=True):
         if kind != "key" or as_int(seg[1]) is not None:
             raise Unspecified("%s segment applied to a slice" % kind)
 
+    if kind == "glob":
+        from vkit import paths
+        segs = tuple(segs)
+        return step(segs[:i] + (paths.glob_as_search(seg),) + segs[i + 1:],
+                    i, ctx, tl)
+
     if kind == "key":
         return _key(segs, i, ctx, tl)
 
